@@ -42,6 +42,27 @@ static std::string run(const std::vector<std::string> & f)
     {
         return bits(reply());
     }
+    if (k == "aggval")
+    {
+        // aggval <how> <pairs of the old value> | <pairs of the new value>: an aggregate that held the old value receives the
+        // new one by copy / move assignment or is constructed from it; what it then reports must be the new value's
+        std::string how = f.at(1);
+        replies oldv, newv;
+        size_t i = 2;
+        for (; i < f.size() && f[i] != "|"; i += 2) oldv.append(reply((std::uint16_t)std::stoul(f[i]), unhex(f[i + 1])));
+        for (i++; i + 1 < f.size(); i += 2) newv.append(reply((std::uint16_t)std::stoul(f[i]), unhex(f[i + 1])));
+        replies rs = oldv;
+        if (how == "copy=") rs = newv;
+        else if (how == "move=") rs = std::move(newv);
+        else if (how == "copy") { replies t(newv); rs = oldv; return [&] { replies u(newv); std::string o = u.is_positive() ? "1" : "0"; o += " " + hex(u.get_status_string()) + " "; bool fst = true; for (const reply & r : u) { if (!fst) o += ","; fst = false; o += show_reply(r); } return o; }(); }
+        else if (how == "move") { replies u(std::move(newv)); std::string o = u.is_positive() ? "1" : "0"; o += " " + hex(u.get_status_string()) + " "; bool fst = true; for (const reply & r : u) { if (!fst) o += ","; fst = false; o += show_reply(r); } return o; }
+        else if (how == "list=") { file_list_reply fl(oldv, "old"); file_list_reply nl(newv, "new"); fl = std::move(nl); std::string o = fl.is_positive() ? "1" : "0"; o += " " + hex(fl.get_status_string()) + " "; bool fst = true; for (const reply & r : fl) { if (!fst) o += ","; fst = false; o += show_reply(r); } return o; }
+        std::string out = rs.is_positive() ? "1" : "0";
+        out += " " + hex(rs.get_status_string()) + " ";
+        bool first = true;
+        for (const reply & r : rs) { if (!first) out += ","; first = false; out += show_reply(r); }
+        return out;
+    }
     if (k == "agg")
     {
         replies rs;
